@@ -221,6 +221,16 @@ class DeployEngine(object):
     def app_constraints(self, g, mv):
         t, w = self.t, self.w
         cons, Routes = self.cons, self.Routes
+        if t.draw(4) == 0:
+            # the caller's own subclasses of the constraint classes (carrying
+            # data of the caller's, say)
+            import types
+            w.probe("constraint_subclasses")
+            cons = types.SimpleNamespace(**{
+                n: type("My" + n, (getattr(self.cons, n),), {"note": "mine"})
+                for n in ("LocationConstraint", "RouteEndpointConstraint",
+                          "SameChipConstraint", "ReserveResourceConstraint",
+                          "AlignResourceConstraint")})
         out = []
         vs = list(g.vertices_resources)
         chips = mv.chips()
